@@ -341,6 +341,9 @@ func (g *Global) Grow(size int) {
 
 // AddDatum adds d to this data section, growing it if necessary. Errors if the datum overlaps with existing data.
 func (g *Global) AddDatum(d Datum) error {
+	if d.Offset < 0 {
+		return errors.New("negative offset")
+	}
 	for _, other := range g.Data {
 		if d.Overlaps(other) {
 			return errors.New("overlaps existing datum")
